@@ -324,6 +324,27 @@ def run(ctx):
         else:
             st["agreed"] += 1
             st["hist"]["option_word_in_query"] += 1
+    # the arithmetic words (plus, minus, mul, div, mod) in every letter case, in the select list, in WHERE and as an ORDER BY key
+    ariths = G[3]
+    wjobs = []
+    for key_, alts in ariths.items():
+        sym = [a for a in alts if not a.isalpha()]
+        words = [a for a in alts if a.isalpha()]
+        if not sym:
+            continue
+        for w_ in words:
+            for cw in (w_, w_.upper(), w_.capitalize(), w_[0] + w_[1:].upper()):
+                wjobs.append((["name, size %s 3 from t order by name" % sym[0]], ["name, size %s 3 from t order by name" % cw], "arith-word:" + cw))
+                wjobs.append((["name from t where size %s 3 >= 4 order by name" % sym[0]], ["name from t where size %s 3 >= 4 order by name" % cw], "arith-word-where:" + cw))
+                wjobs.append((["name from t order by size %s 7, name" % sym[0]], ["name from t order by size %s 7, name" % cw], "arith-word-order:" + cw))
+    for (c, v, d), a, b in pmap(one, wjobs):
+        nrows += 1
+        if (a["status"], a["stdout"]) != (b["status"], b["stdout"]) or a["status"] != 0:
+            ctx.violation("impl-violates-spec", "an arithmetic word (%s) does not mean what its symbol means (status %s / %s)" % (d, a["status"], b["status"]),
+                          input={"canonical_argv": c, "variant_argv": v}, observed=b["stdout"][:200], expected=a["stdout"][:200])
+        else:
+            st["agreed"] += 1
+            st["hist"]["arith_word_case"] += 1
     # an argument-less function written bare, with `()` and with `{}` directly next to an arithmetic symbol (no blanks): the same value
     gl = []
     for fn_, rest in (("rand", "*0"), ("random", "*0"), ("rand", "-rand"), ("curdate", "-1"), ("rand", "%1"), ("rand", "/1*0")):
@@ -355,6 +376,6 @@ def run(ctx):
                 ctx.notes.append("%s: witness no longer fails; update KNOWN_FINDINGS.json" % k["id"])
     ctx.coverage.update(
         evaluations=len(cases) + nrows, distinct_nontrivial=len(st["distinct"]), traces_validated_against_impl=st["agreed"],
-        rule="valid queries from a typed generator (1-4 columns incl. functions/arithmetic, or aggregates with count(*) in either bracket style, root options (after FROM, or directly after the columns in a query without FROM), WHERE with all operator kinds, brackets, GROUP BY (directly after the root options and after WHERE), ORDER BY, LIMIT, INTO) x renderings: with and without the leading `select` (always, and always run on the binary), split at every whitespace, random split sets (keeping the search root alone in its argument, see F23), EVERY alias of every aliased token one at a time (alias groups read from the regenerated Field / Function / Op / arithmetic tables), a case variant of every word, the other bracket style, every alias of the safe columns and of several functions as the first word of the command line with and without `select`; argument-less functions bare / with `()` / with `{}` glued to an arithmetic symbol; queries that mention the program's option words (help, version, nocolor, -h ...) in a literal, a root or a column, as one argument and split; optional tokens (select, commas, asc, () after an argument-less function) and random mixtures; the parsed Query of the real parser must be identical to that of the canonical rendering, and (sampled) the binary's output identical. non-trivial = a rendering that differs textually from the canonical one",
+        rule="valid queries from a typed generator (1-4 columns incl. functions/arithmetic, or aggregates with count(*) in either bracket style, root options (after FROM, or directly after the columns in a query without FROM), WHERE with all operator kinds, brackets, GROUP BY (directly after the root options and after WHERE), ORDER BY, LIMIT, INTO) x renderings: with and without the leading `select` (always, and always run on the binary), split at every whitespace, random split sets (keeping the search root alone in its argument, see F23), EVERY alias of every aliased token one at a time (alias groups read from the regenerated Field / Function / Op / arithmetic tables), a case variant of every word, the other bracket style, every alias of the safe columns and of several functions as the first word of the command line with and without `select`; the arithmetic words in every letter case (select list, WHERE, ORDER BY); argument-less functions bare / with `()` / with `{}` glued to an arithmetic symbol; queries that mention the program's option words (help, version, nocolor, -h ...) in a literal, a root or a column, as one argument and split; optional tokens (select, commas, asc, () after an argument-less function) and random mixtures; the parsed Query of the real parser must be identical to that of the canonical rendering, and (sampled) the binary's output identical. non-trivial = a rendering that differs textually from the canonical one",
         samples=st["samples"], distribution=dict(st["hist"]))
     return ctx.finish(trusted=["the alias groups are the ones the source's own lookup tables define (regenerated on this run); docs/usage.md is compared with them in props/C11.v"])
